@@ -99,6 +99,7 @@ def run(ctx):
                        if r["verdict"] == "unrestored"]}
 
     restore_preconditions(ctx, eff)
+    funcnet_interference(ctx)
 
     reqs, impl = [], []
     tj = os.path.splitext(own_tables)[0] + ".json"
@@ -327,6 +328,93 @@ def constructors(ctx):
     caller("ResNetwork", lambda r: ResNetwork(r, silence_level=3), R.copy())
     caller("ClimateData", lambda o: ClimateData(observable=o, grid=grid, time_cycle=12,
                                                 silence_level=3), obs.copy())
+
+
+def close32(a, b):
+    """equality up to single-precision rounding (the estimators compute in float32)"""
+    if isinstance(a, (tuple, list)) and isinstance(b, (tuple, list)):
+        return len(a) == len(b) and all(close32(x, y) for x, y in zip(a, b))
+    a, b = np.asarray(a), np.asarray(b)
+    if a.shape != b.shape:
+        return False
+    if a.dtype.kind in "fc" or b.dtype.kind in "fc":
+        return bool(np.allclose(a, b, rtol=1e-5, atol=1e-6, equal_nan=True))
+    return bool(np.array_equal(a, b))
+
+
+def funcnet_interference(ctx):
+    """coupling analysis objects (compiled and pure-Python class) built from caller arrays in both
+    float widths: deterministic estimates taken after any sequence of other calls - including the
+    surrogate generators, which shuffle *a copy* of the series - equal those of a fresh object,
+    and the caller's array is untouched"""
+    from pyunicorn.funcnet import CouplingAnalysis
+    from pyunicorn.funcnet.coupling_analysis_pure_python import CouplingAnalysisPurePython
+    rng = ctx.rng
+    nprng = np.random.RandomState(rng.randrange(2 ** 31))
+    plans = {
+        CouplingAnalysis: {
+            "det": [("cross_correlation", dict(tau_max=2, lag_mode="all")),
+                    ("cross_correlation", dict(tau_max=2, lag_mode="max")),
+                    ("mutual_information", dict(tau_max=1, estimator="binning", bins=4)),
+                    ("mutual_information", dict(tau_max=0, estimator="gauss"))],
+            "other": [("information_transfer", dict(tau_max=2, estimator="gauss", past=1))]},
+        CouplingAnalysisPurePython: {
+            "det": [("cross_correlation", dict(tau_max=2, lag_mode="all")),
+                    ("cross_correlation", dict(tau_max=2, lag_mode="max")),
+                    ("mutual_information", dict(bins=4, tau_max=1)),
+                    ("mutual_information_edges", dict(bins=4, tau=0))],
+            "other": [("shuffled_surrogate_for_cc", dict(tau_max=1)),
+                      ("shuffled_surrogate_for_cc", dict(fourier=True, tau_max=1)),
+                      ("time_surrogate_for_cc", dict(sample_range=5, tau_max=1)),
+                      ("shuffled_surrogate_for_mi", dict(bins=4, tau_max=0)),
+                      ("time_surrogate_for_mi", dict(bins=4, sample_range=5, tau_max=1))]},
+    }
+    for cls, plan in plans.items():
+        for dt in (np.float64, np.float32):
+            for layout in ("C", "F"):
+                data = np.asarray((nprng.rand(40, 3) * 4 - 2).astype(dt), order=layout)
+                keep = data.copy()
+                name = f"{cls.__name__}({dt.__name__},{layout})"
+                try:
+                    # same memory layout as the object under test: float32 sums depend on the
+                    # summation order at the 1e-7 level
+                    fresh = quiet(cls, data.copy(order="K"), silence_level=3) \
+                        if cls is CouplingAnalysis else quiet(cls, data.copy(order="K"))
+                    base = {}
+                    for m, kw in plan["det"]:
+                        try:
+                            base[(m, str(kw))] = snap(quiet(getattr(fresh, m), **kw))
+                        except Exception:  # noqa
+                            pass
+                    obj = quiet(cls, data, silence_level=3) if cls is CouplingAnalysis \
+                        else quiet(cls, data)
+                except Exception as ex:  # noqa
+                    ctx.count(f"constructor-raises:{name}:{type(ex).__name__}")
+                    continue
+                calls = plan["det"] + plan["other"]
+                rng.shuffle(calls)
+                hist = []
+                for m, kw in calls + plan["det"]:
+                    hist.append(f"{m}({kw})")
+                    try:
+                        v = quiet(getattr(obj, m), **kw)
+                    except Exception:  # noqa
+                        ctx.count(f"{name}:raises:{m}")
+                        continue
+                    ctx.case(("funcnet", name, tuple(hist)), True)
+                    b = base.get((m, str(kw)))
+                    if b is not None and not close32(v, b):
+                        ctx.fail({"kind": "query-interference", "class": cls.__name__, "query": m},
+                                 f"{name}: {m}({kw}) after {hist[:-1]} differs from a fresh object",
+                                 {"class": cls.__name__, "dtype": dt.__name__, "layout": layout,
+                                  "history": hist, "data": keep.tolist()})
+                        break
+                if data.shape != keep.shape or not same(data, keep):
+                    ctx.fail({"kind": "caller-array-edited", "constructor": cls.__name__,
+                              "argument": 0},
+                             f"{name} (or one of its methods) modifies the caller's data array",
+                             {"class": cls.__name__, "dtype": dt.__name__, "layout": layout,
+                              "history": hist, "data": keep.tolist()})
 
 
 def array_functions(ctx):
